@@ -12,9 +12,12 @@
 EXTENDS Tsplib, TraceIO
 VARIABLE tid
 
+\* D is the matrix as written into the file: like M, but the formats that list the diagonal may carry
+\* arbitrary numbers there (TSPLIB files often do); the loaded matrix must still be M (zero diagonal)
 Explicit(c) ==
-  (IF c.tokens # TokensOf(c.fmt, c.M) THEN {"driver-bad-tokens"} ELSE {})
-  \cup (IF c.loaded # MatrixFrom(c.fmt, c.n, c.tokens) THEN {"explicit-format:" \o c.fmt} ELSE {})
+  (IF c.tokens # TokensOf(c.fmt, c.D) \/ \E i \in 1..c.n : \E j \in 1..c.n : i # j /\ c.D[i][j] # c.M[i][j]
+   THEN {"driver-bad-tokens"} ELSE {})
+  \cup (IF c.loaded # MatrixFrom(c.fmt, c.n, c.tokens) \/ c.loaded # c.M THEN {"explicit-format:" \o c.fmt} ELSE {})
 
 RoundTrip(c) ==
   (IF c.fmt \notin Formats THEN {"writer-unknown-format"}
